@@ -81,13 +81,47 @@ fn state_lattice_for(spec: &Spec) -> Vec<V> {
             }
             out
         }
-        Spec::So2 { .. } => so2_lattice(true),
-        Spec::So3 { .. } => {
+        Spec::So2 { bounds, .. } => {
+            let mut v = so2_lattice(true);
+            // states placed RELATIVE to the stored interval: on, a hair beyond and well beyond either end, the
+            // point opposite the middle (where the nearer end changes), each also one turn off
+            if bounds.is_some() {
+                let (l, u) = refspace::so2_bounds(bounds);
+                let mid = 0.5 * (l + u);
+                for base in [l, u, mid + PI, mid - PI] {
+                    for d in [0.0, 1e-15, -1e-15, 1e-12, -1e-12, 1e-9, -1e-9, 1e-6, -1e-6, 0.01, -0.01, 0.3, -0.3] {
+                        v.push(V::So2(base + d));
+                        v.push(V::So2(base + d + 2.0 * PI));
+                    }
+                }
+            }
+            v
+        }
+        Spec::So3 { bounds, .. } => {
             let mut v = so3_lattice(true);
             v.push(V::So3([0.0, 0.0, 0.0, 0.0])); // zero quaternion
             v.push(V::So3([0.0, 0.0, 0.0, 2.0])); // non-unit
             v.push(V::So3([3.0, 0.0, 4.0, 0.0]));
             v.push(V::So3([1e-10, 0.0, 0.0, 0.0]));
+            // states placed RELATIVE to the cone: centre x rotation about 4 axes by k x radius for a ladder of k
+            // from just inside to far outside (projection ratios t = 1/k over the whole of (0, 1]), and by a
+            // ladder of absolute small angles (the projection interpolates, and interpolation switches formula
+            // for rotations closer than 0.063 rad)
+            if let Some((c, r)) = bounds {
+                let axes = [[1.0, 0.0, 0.0], [0.0, 1.0, 0.0], [0.0, 0.0, 1.0], [0.6, -0.48, 0.64]];
+                let mut angles: Vec<f64> = [0.5, 1.0 - 1e-9, 1.0, 1.0 + 1e-9, 1.0 + 1e-6, 1.001, 1.05, 1.2, 1.5, 1.9, 2.0, 2.1, 3.0, 5.0, 10.0, 100.0, 1e4].iter().map(|k| k * r).collect();
+                angles.extend([1e-7, 1e-5, 1e-3, 0.01, 0.02, 0.03, 0.045, 0.06, 0.0632, 0.0633, 0.07, 0.1, 0.3, 1.0, 2.0, 3.0, PI]);
+                for ax in axes {
+                    for a in &angles {
+                        if *a > 0.0 && *a <= PI {
+                            let rot = crate::catalog::quat_axis_angle(ax, a.to_degrees());
+                            let q = refspace::quat_mul(c, &rot);
+                            v.push(V::So3(q));
+                            v.push(V::So3([-q[0], -q[1], -q[2], -q[3]]));
+                        }
+                    }
+                }
+            }
             v
         }
         _ => {
@@ -367,7 +401,7 @@ pub fn c11_spaces(thorough: bool) -> Vec<Spec> {
     v.push(Spec::So3 { bounds: None, frac: None });
     let diag = crate::catalog::quat_axis_angle([1.0, 1.0, 0.3], 100.0);
     for c in [id, rx, diag] {
-        let radii: Vec<f64> = if thorough { vec![0.0, 1e-10, 1e-3, 0.5, 1.0, 1.2, PI / 2.0, 2.0, 2.5, PI, 4.0] } else { vec![0.0, 1e-6, 1e-3, 0.5, 1.2, PI / 2.0, 2.5, PI] };
+        let radii: Vec<f64> = if thorough { vec![0.0, 1e-10, 1e-6, 1e-4, 1e-3, 0.01, 0.02, 0.03, 0.04, 0.045, 0.05, 0.06, 0.1, 0.2, 0.5, 1.0, 1.2, PI / 2.0, 2.0, 2.5, PI, 4.0] } else { vec![0.0, 1e-6, 1e-3, 0.01, 0.03, 0.045, 0.06, 0.2, 0.5, 1.2, PI / 2.0, 2.5, PI] };
         for r in radii {
             v.push(Spec::So3 { bounds: Some((c, r)), frac: None });
         }
